@@ -35,7 +35,11 @@ man = dict(
     engines=[dict(name="gobmc", path="/verif/gobmc", serves_properties=[c["property_id"] for c in checks],
                   kind_free_text="SSA-level symbolic interpreter for Go with guarded state merging + step-indexed scheduling BMC, decided by z3")],
     checks=checks,
-    notes="Every check rebuilds its encoding from /repo's current working tree (rsync to a temp dir + go/ssa). Known genuine defects are listed in known_findings.json.",
+    notes=("Every check rebuilds its encoding from /repo's current working tree (rsync to a temp dir + go/ssa export + symbolic interpretation). "
+           "Genuine defects found are listed in /verif/known_findings.json: 'fixed' entries name the unguarded 'fix:' commits in /repo, 'findings' are printed as KNOWN-FINDING lines. "
+           "No guarded source hooks exist: harness files enter builds only through the scratch copy. "
+           "Seeded changes used to test the checks are under /verif/seeded/ (DESIGN.md section 10.3). "
+           "INCONCLUSIVE lines (time budget, unsupported construct) never count as 'holds': the evidence file lists them per scenario."),
     not_applicable=na,
 )
 json.dump(man, open(os.path.join(VERIF, "MANIFEST.json"), "w"), indent=1)
